@@ -587,7 +587,7 @@ MonDriftParser(S) ==
                   tail == IF st.status = "run" THEN Sub(seg, Len(r.hooks) + 1, Len(seg)) ELSE <<>>
                   ds   == Delivered(S, a)
                   nxt  == DumpOf(S, a + 1)
-              IN (IF Sub(seg, 1, Len(r.hooks)) = r.hooks /\
+              IN (IF Len(r.hooks) <= Len(seg) /\ Sub(seg, 1, Len(r.hooks)) = r.hooks /\
                      (IF st.status = "run"
                       THEN Len(tail) = 2 /\ tail[1] = "parser.select" /\ tail[2] \in {"parser.sawClosed", "parser.sawCtx"}
                       ELSE Len(seg) = Len(r.hooks))
@@ -676,12 +676,17 @@ Mon(p, S) ==
     [] p \in {"C09", "C10", "C11", "C12", "C13", "C14"} -> MonE2E(p, S)
     [] p = "C02" -> MonC02(S)
     [] p = "C03" -> MonC03(S)
-    [] p = "C04" -> MonC04(S) \cup MonDriftParser(S) \cup MonDriftSession(S)
+    [] p = "C04" -> MonC04(S)
+    \* model-conformance monitors (they decide no property; evaluated in a pass of their own so that nothing they do can
+    \* void a verdict): D04 / D05 / D06
+    [] p = "D04" -> MonDriftParser(S) \cup MonDriftSession(S)
+    [] p = "D05" -> MonDrift(S) \cup MonDriftParser(S) \cup MonDriftSchedule(S)
+    [] p = "D06" -> MonDriftSchedule(S)
     [] p = "C07" -> MonC07(S)
     [] p = "C17" -> MonC17(S)
     [] p = "C15" -> MonC15(S)
-    [] p = "C05" -> MonC05(S) \cup MonDrift(S) \cup MonDriftParser(S) \cup MonDriftSchedule(S)
-    [] p = "C06" -> MonC06(S) \cup MonDriftSchedule(S)
+    [] p = "C05" -> MonC05(S)
+    [] p = "C06" -> MonC06(S)
     [] p = "C08" -> MonC08(S)
     [] p = "C20" -> MonC20(S)
 
@@ -699,7 +704,7 @@ TNext ==
           THEN LET bad == Failures([from |-> s0, to |-> l]) IN
                  /\ nviol' = nviol + Cardinality(bad)
                  /\ \A b \in bad : PrintT(<<"MONFAIL", ToJson(b)>>)
-                 /\ (Props \cap {"C04", "C05"} # {} /\ ParserChecked([from |-> s0, to |-> l]) > 0)
+                 /\ (Props \cap {"D04", "D05"} # {} /\ ParserChecked([from |-> s0, to |-> l]) > 0)
                       => PrintT(<<"MONSTAT", "parser", ParserChecked([from |-> s0, to |-> l])>>)
           ELSE IF e.ev = "race" /\ "C05" \in Props
           THEN /\ nviol' = nviol + 1
